@@ -13,5 +13,8 @@ for i in range(1, 21):
     st, rep = run_property(p, "quick", 0, write_evidence=False, quiet=True, selftest=False)
     if st != 0:
         sys.exit(f"{p} does not pass on this tree; refusing to record a baseline")
-json.dump({k: [list(v) for v in vs] for k, vs in sorted(rules._RECORDED.items())}, open(os.path.join(VERIF, "prsa", "baseline_vocab.json"), "w"), indent=0)
+from prsa.model import load_program  # noqa: E402
+out = {k: [list(v) for v in vs] for k, vs in sorted(rules._RECORDED.items())}
+out["__functions__"] = sorted(load_program().functions)
+json.dump(out, open(os.path.join(VERIF, "prsa", "baseline_vocab.json"), "w"), indent=0)
 print(len(rules._RECORDED), "comparisons recorded")
